@@ -56,8 +56,10 @@ class Path:
         self.issues = []
         self.rel = {}                   # input Aff key -> replacement Aff (x = c*q + r)
         self.divcache = {}
+        self.mem = {}                   # abstract memory cells of a subclass of the evaluator (nsa/bufeval.py)
     def copy(self):
         p = Path(self.ranges)
+        p.mem = dict(self.mem)
         p.cons = list(self.cons)
         p.issues = list(self.issues)
         p.rel = dict(self.rel)
@@ -138,6 +140,9 @@ class Evaluator:
         out = []
         self._run(fn, dict(zip([a['id'] for a in fn.args], args)), Path(ranges), fn.entry.id, None, out, 0)
         return out
+    def hook(self, fn, regs, path, i):
+        """extension point: a subclass may interpret an instruction itself (return True)"""
+        return False
     def _val(self, regs, ref):
         if isinstance(ref, str):
             if ref not in regs:
@@ -172,6 +177,8 @@ class Evaluator:
         for i in blk.insts[start:]:
             op = i.op
             if op in ('dbg', 'phi'):
+                continue
+            if self.hook(fn, regs, path, i):
                 continue
             if op in ('add', 'sub'):
                 a, b = self._val(regs, i.ops[0]), self._val(regs, i.ops[1])
